@@ -299,3 +299,44 @@ theorem binReadCrs_layout (memLimit vsz : Nat) (enc : V → Bytes) (dec : Bytes 
   rw [map_sortRowN_lengths]
 
 end Amgcl.IO
+
+namespace Amgcl.IO
+variable {V : Type}
+
+/-- **binary round trip, sparse**: reading back what the `io::write` sequence wrote returns the same rows, each
+passed through `sort_row` -/
+theorem binReadCrs_write (memLimit vsz : Nat) (enc : V → Bytes) (dec : Bytes → V)
+    (henc : ∀ v, (enc v).length = vsz) (hdec : ∀ v, dec (enc v) = v) (A : CRS V)
+    (hcol : ∀ r ∈ A.rows.toList, ∀ cv ∈ r, cv.1 < 9223372036854775808)
+    (hfile : (binWriteCrs enc A).length < two63)
+    (hm1 : (A.nrows + 1) * 8 ≤ memLimit) (hm2 : A.nnz * 8 ≤ memLimit) (hm3 : A.nnz * vsz ≤ memLimit) :
+    binReadCrs true memLimit vsz dec (binWriteCrs enc A) (-1) (-1)
+      = .ok (RawCRS.ofRows A.nrows 0 ((A.rows.toList.map intRow).map (sortRowN wrap32))) := by
+  have hnnz : A.nnz = (A.rows.toList.map intRow).flatten.length := by
+    unfold CRS.nnz
+    rw [← Array.foldl_toList, List.length_flatten, List.map_map]
+    generalize A.rows.toList = l
+    suffices H : ∀ (acc : Nat), List.foldl (fun s r => s + List.length r) acc l
+        = acc + (List.map (List.length ∘ intRow) l).sum by simpa using H 0
+    induction l with
+    | nil => simp
+    | cons r t ih => intro acc; simp [List.foldl_cons, ih, intRow]; omega
+  have hn : A.nrows = (A.rows.toList.map intRow).length := by simp [CRS.nrows]
+  apply binReadCrs_layout memLimit vsz enc dec henc hdec (A.rows.toList.map intRow) _ A.nrows
+    (A.rows.toList.map intRow).flatten.length _ _ _ hn rfl rfl rfl rfl
+  · rfl
+  · intro c hc
+    simp only [List.mem_map, List.mem_flatten] at hc
+    obtain ⟨x, ⟨l, ⟨r, hr, rfl⟩, hx⟩, rfl⟩ := hc
+    unfold intRow at hx
+    rw [List.mem_map] at hx
+    obtain ⟨cv, hcv, rfl⟩ := hx
+    have := hcol r hr cv hcv
+    simp only []
+    omega
+  · exact hfile
+  · exact hm1
+  · rw [← hnnz]; exact hm2
+  · rw [← hnnz]; exact hm3
+
+end Amgcl.IO
